@@ -12,8 +12,8 @@ use crate::ctx::{Ctx, S};
 use crate::tl::{self, Pk};
 use std::fmt::Debug;
 
-pub const NPROBES: usize = 5;
-pub const PROBE_NAMES: [&str; NPROBES] = ["nth", "last", "fold", "count", "skip"];
+pub const NPROBES: usize = 9;
+pub const PROBE_NAMES: [&str; NPROBES] = ["nth", "last", "fold", "count", "skip", "find", "any", "all", "position"];
 
 #[derive(Debug, Clone)]
 pub struct ProbeOut<T> {
@@ -26,6 +26,8 @@ pub struct ProbeOut<T> {
     /// items produced afterwards by `next` (nth), by the fold closure (fold), by the Skip adaptor (skip)
     pub tail: Vec<T>,
     pub count: Option<usize>,
+    /// items handed to the closure of any / all / position (by value), in call order
+    pub seen: Vec<T>,
     /// `next` produced an item after it had returned None
     pub resumed: bool,
     pub panicked: Option<Pk>,
@@ -43,7 +45,7 @@ fn lib<R>(cx: &mut Ctx, noalloc: bool, f: impl FnOnce() -> R) -> Result<R, Pk> {
 
 /// Run probe `which` with argument `k` on `it`. `cap` bounds the number of items pulled.
 pub fn probe<I: Iterator, T>(cx: &mut Ctx, noalloc: bool, mut it: I, which: usize, k: usize, cap: usize, mut ext: impl FnMut(I::Item) -> T) -> ProbeOut<T> {
-    let mut out = ProbeOut { which, k, got: None, hint_after: None, tail: Vec::with_capacity(cap + 8), count: None, resumed: false, panicked: None };
+    let mut out = ProbeOut { which, k, got: None, hint_after: None, tail: Vec::with_capacity(cap + 8), count: None, seen: Vec::new(), resumed: false, panicked: None };
     cx.bump(S::adaptor_probes);
     match which {
         0 => {
@@ -102,6 +104,92 @@ pub fn probe<I: Iterator, T>(cx: &mut Ctx, noalloc: bool, mut it: I, which: usiz
             Ok(n) => out.count = Some(n),
             Err(p) => out.panicked = Some(p),
         },
+        5..=8 => {
+            // the short-circuiting searches (find / any / all / position) with a closure that
+            // answers by call index: it stops at the k-th item it is shown; the iterator must then
+            // stand right behind that item
+            out.seen = Vec::with_capacity(cap + 8);
+            let seen = &mut out.seen;
+            let lim = cap + 8;
+            let mut idx = 0usize;
+            let itr = &mut it;
+            let r: Result<(Option<I::Item>, usize), Pk> = match which {
+                5 => lib(cx, noalloc, || {
+                    let x = itr.find(|_| {
+                        let hit = idx == k;
+                        idx += 1;
+                        hit
+                    });
+                    (x, 0)
+                }),
+                6 => lib(cx, noalloc, || {
+                    let b = itr.any(|x| {
+                        let hit = idx == k;
+                        idx += 1;
+                        if idx <= lim {
+                            tl::outside(|| seen.push(ext(x)));
+                        }
+                        hit
+                    });
+                    (None, b as usize)
+                }),
+                7 => lib(cx, noalloc, || {
+                    let b = itr.all(|x| {
+                        let hit = idx == k;
+                        idx += 1;
+                        if idx <= lim {
+                            tl::outside(|| seen.push(ext(x)));
+                        }
+                        !hit
+                    });
+                    (None, b as usize)
+                }),
+                _ => lib(cx, noalloc, || {
+                    let p = itr.position(|x| {
+                        let hit = idx == k;
+                        idx += 1;
+                        if idx <= lim {
+                            tl::outside(|| seen.push(ext(x)));
+                        }
+                        hit
+                    });
+                    (None, p.unwrap_or(usize::MAX))
+                }),
+            };
+            match r {
+                Ok((x, c)) => {
+                    out.got = x.map(&mut ext);
+                    out.count = Some(c);
+                }
+                Err(p) => {
+                    out.panicked = Some(p);
+                    return out;
+                }
+            }
+            out.hint_after = Some(size_hint_of(&it));
+            let mut ended = false;
+            for _ in 0..cap + 4 {
+                match lib(cx, noalloc, || it.next()) {
+                    Ok(Some(x)) => {
+                        if ended {
+                            out.resumed = true;
+                        }
+                        out.tail.push(ext(x));
+                    }
+                    Ok(None) => {
+                        if ended {
+                            break;
+                        }
+                        ended = true;
+                    }
+                    Err(p) => {
+                        out.panicked = Some(p);
+                        break;
+                    }
+                }
+            }
+            let _ = lib(cx, false, move || drop(it));
+        }
         _ => {
             let mut sk = it.skip(k);
             let mut ended = false;
@@ -175,6 +263,40 @@ pub fn check_ordered<T: PartialEq + Debug>(o: &ProbeOut<T>, rest: &[T], exact_hi
                 return Err(format!("count() returned {:?} with {n} items to come", o.count));
             }
         }
+        5..=8 => {
+            let shown = (o.k + 1).min(n);
+            let after = &rest[shown..];
+            if o.tail.as_slice() != after {
+                return Err(format!("after {name}(stop at item {}) with {n} items to come the iterator continued with {:?}, stepping gives {:?}", o.k, o.tail, after));
+            }
+            if let Some((lo, hi)) = o.hint_after {
+                let m = after.len();
+                let ok = if exact_hint { lo == m && hi == Some(m) } else { lo <= m && hi.map(|h| h >= m).unwrap_or(true) };
+                if !ok {
+                    return Err(format!("size_hint after {name}(stop at item {}) is ({lo}, {hi:?}) with {m} items still to come", o.k));
+                }
+            }
+            let hit = o.k < n;
+            match o.which {
+                5 => {
+                    if o.got.as_ref() != rest.get(o.k) {
+                        return Err(format!("find(stop at item {}) with {n} items to come returned {:?}, stepping gives {:?}", o.k, o.got, rest.get(o.k)));
+                    }
+                }
+                6 | 7 => {
+                    let want = if o.which == 6 { hit } else { !hit };
+                    if o.count != Some(want as usize) || o.seen.as_slice() != &rest[..shown] {
+                        return Err(format!("{name}(stop at item {}) with {n} items to come returned {:?} after showing {:?} to its closure; expected {want} after {:?}", o.k, o.count.map(|c| c == 1), o.seen, &rest[..shown]));
+                    }
+                }
+                _ => {
+                    let want = if hit { o.k } else { usize::MAX };
+                    if o.count != Some(want) || o.seen.as_slice() != &rest[..shown] {
+                        return Err(format!("position(stop at item {}) with {n} items to come returned {:?} after showing {} items to its closure", o.k, o.count.filter(|c| *c != usize::MAX), o.seen.len()));
+                    }
+                }
+            }
+        }
         _ => {
             let after = &rest[o.k.min(n)..];
             if o.tail.as_slice() != after {
@@ -211,6 +333,11 @@ pub fn check_multiset<T: PartialEq + Debug + Clone>(o: &ProbeOut<T>, rest: &[T],
             return Err(format!("{name}({}) returned {g:?}, which is not among the entries still to come {rest:?}", o.k));
         }
     }
+    for x in &o.seen {
+        if !take(x) {
+            return Err(format!("{name}({}): showed {x:?} to its closure, which is not among the entries still to come (or was produced twice); to come: {rest:?}", o.k));
+        }
+    }
     for x in &o.tail {
         if !take(x) {
             return Err(format!("{name}({}): produced {x:?} which is not among the entries still to come (or was produced twice); to come: {rest:?}", o.k));
@@ -245,6 +372,29 @@ pub fn check_multiset<T: PartialEq + Debug + Clone>(o: &ProbeOut<T>, rest: &[T],
         3 => {
             if o.count != Some(n) {
                 return Err(format!("count() returned {:?} with {n} items to come", o.count));
+            }
+        }
+        5..=8 => {
+            let shown = (o.k + 1).min(n);
+            let m = n - shown;
+            if o.tail.len() != m {
+                return Err(format!("after {name}(stop at item {}) with {n} items to come, {} more items followed, expected {m}", o.k, o.tail.len()));
+            }
+            if let Some((lo, hi)) = o.hint_after {
+                let ok = if exact_hint { lo == m && hi == Some(m) } else { lo <= m && hi.map(|h| h >= m).unwrap_or(true) };
+                if !ok {
+                    return Err(format!("size_hint after {name}(stop at item {}) is ({lo}, {hi:?}) with {m} items still to come", o.k));
+                }
+            }
+            let hit = o.k < n;
+            let ok = match o.which {
+                5 => o.got.is_some() == hit,
+                6 => o.count == Some(hit as usize) && o.seen.len() == shown,
+                7 => o.count == Some(!hit as usize) && o.seen.len() == shown,
+                _ => o.count == Some(if hit { o.k } else { usize::MAX }) && o.seen.len() == shown,
+            };
+            if !ok {
+                return Err(format!("{name}(stop at item {}) with {n} items to come: returned {:?} / {:?} after showing {} items to its closure", o.k, o.got, o.count, o.seen.len()));
             }
         }
         _ => {
